@@ -275,6 +275,27 @@ def run_once(base, case, fault, prepared_copy):
     return before, after, err, count, log
 
 
+def check_log(case, fault_label, log, add):
+    """the audit log sees every mutating event, also those whose effect is gone again when the run ends"""
+    out_pkg, core_pkg = LAYOUTS[case["layout"]]
+    mode = "force" if case["force"] else "noforce"
+    for ev, rp in log:
+        rp = rp.replace(os.sep, "/")
+        if "/run/proj/" not in rp and not rp.endswith("/run/proj"):
+            continue
+        rel = rp.split("/run/proj/", 1)[1] if "/run/proj/" in rp else ""
+        if not rel:
+            continue
+        if not case["force"] and case["tree"] != "absent":
+            add(f"untouched|{case['tree']}|{case['layout']}", "non-force run over an existing package performs a filesystem-mutating operation under the project root "
+                "(even if undone before it returns)", f"{ev} {rel.split('/')[0]}/... ({fault_label})")
+            return
+        if not allowed(rel, out_pkg, core_pkg):
+            add(f"containment|{mode}|{case['layout']}", "filesystem-mutating operation on a path outside the package/core/ancestor-__init__ set (transient)",
+                f"{ev} {rel} ({fault_label})")
+            return
+
+
 def check_run(case, label, fault_label, before, after, err, add):
     out_pkg, core_pkg = LAYOUTS[case["layout"]]
     created, removed, modified, touched = diff_snap(before, after)
@@ -327,6 +348,7 @@ def run_case(case):
         before, after, err, W, log = run_once(base, case, None, prep)
         n += 1
         check_run(case, label, "none", before, after, err, add)
+        check_log(case, "none", log, add)
         if W == 0 and (case["force"] or case["tree"] == "absent"):
             raise HarnessError("the audit hook saw no mutating event during a generating run: fault injector blind")
         for k in range(1, W + 1):
@@ -336,6 +358,7 @@ def run_case(case):
             fl = f"fault at event {k}/{W}: {ev[0]} {ev[1]}"
             nontriv.append(f"{label}|k={k}")
             check_run(case, label, fl, b, a, e, add)
+            check_log(case, fl, lg, add)
             if case["force"] is False and case["tree"] == "absent" and e is None:
                 pass
         import pyopenapi_gen.generator.client_generator as _cg
